@@ -431,3 +431,92 @@ def closure(sc):
             supplied[m] = i
             todo.extend(sorted(set(list(sc['imports'].get(m, [])) + list(BASE))))
     return keys, supplied
+
+
+# ---------------------------------------------------------------------------
+# exhaustive small scope: every scenario over two user modules, two sources and a fixed option lattice
+
+
+SMALL_GRAPHS = (
+    {'MA-MIB': [], 'MB-MIB': []},
+    {'MA-MIB': ['MB-MIB'], 'MB-MIB': []},
+    {'MA-MIB': ['MB-MIB'], 'MB-MIB': ['MA-MIB']},          # cycle
+    {'MA-MIB': ['MA-MIB', 'MB-MIB'], 'MB-MIB': []},        # self import
+    {'MA-MIB': ['MB-MIB', 'MZ-MIB'], 'MB-MIB': []},        # a dependency nobody holds
+)
+SMALL_OUTCOMES = ('absent', 'good', 'lex', 'readerr', 'semantic')
+SMALL_DIMS = (
+    ('graph', range(len(SMALL_GRAPHS))),
+    ('a0', SMALL_OUTCOMES), ('a1', SMALL_OUTCOMES), ('b0', SMALL_OUTCOMES), ('b1', SMALL_OUTCOMES),
+    ('requested', (('MA-MIB',), ('MA-MIB', 'MB-MIB'))),
+    ('codegen', (None, 'MA-MIB', 'MB-MIB')),
+    ('writer', (None, 'MA-MIB')),
+    ('borrower', (None, 'match', 'mismatch')),
+    ('ignoreErrors', (None, True)),
+    ('noDeps', (None, True)),
+    ('searcher', (None, 'fresh-MB')),
+)
+
+
+def small_scope_size():
+    n = 1
+    for name, vals in SMALL_DIMS:
+        n *= len(vals)
+    return n
+
+
+def small_scenario(index):
+    """The index-th scenario of the small scope (mixed-radix decoding of SMALL_DIMS)."""
+    pick = {}
+    for name, vals in SMALL_DIMS:
+        vals = list(vals)
+        pick[name] = vals[index % len(vals)]
+        index //= len(vals)
+    user = ['MA-MIB', 'MB-MIB']
+    imports = dict((k, list(v)) for k, v in SMALL_GRAPHS[pick['graph']].items())
+    for b in BASE:
+        imports[b] = []
+    s0 = {'MA-MIB': pick['a0'], 'MB-MIB': pick['b0']}
+    s1 = {'MA-MIB': pick['a1'], 'MB-MIB': pick['b1']}
+    for b in BASE:
+        s0[b] = 'good'
+    borr = []
+    if pick['borrower']:
+        holds = {'MA-MIB': 'text', 'MB-MIB': 'text', 'MZ-MIB': 'text'}
+        # the request asks for no texts (genTexts None): a with-texts borrower does not match it
+        borr = [{'genTexts': pick['borrower'] == 'mismatch', 'holds': holds}]
+    srch = []
+    if pick['searcher']:
+        srch = [{'answers': {'MB-MIB': 'fresh'}, 'honour_rebuild': True}]
+    return {'universe': user + list(BASE), 'user': user, 'imports': imports, 'sources': [s0, s1],
+            'requested': list(pick['requested']),
+            'codegen': {pick['codegen']: 'fail'} if pick['codegen'] else {},
+            'writer': {pick['writer']: 'fail'} if pick['writer'] else {},
+            'searchers': srch, 'borrowers': borr,
+            'options': {'noDeps': pick['noDeps'], 'rebuild': None, 'dryRun': None, 'genTexts': None,
+                        'ignoreErrors': pick['ignoreErrors'], 'writeMibs': None},
+            'realgen': False}
+
+
+def small_sweep(ctx, prop, label='small-scope', quick_stride=61):
+    """Run `prop(scenario, rec)` over the small scope: all of it in the thorough tier, every quick_stride-th scenario
+    (offset by the seed) in the quick tier."""
+    total = small_scope_size()
+    stride = quick_stride if ctx.tier == 'quick' else 1
+
+    def fn(rec, shard, nshards, seed, tier, extra):
+        start = (seed % stride) if stride > 1 else 0
+        k = 0
+        for i in range(start, total, stride):
+            if k % nshards == shard:
+                prop(small_scenario(i), rec)
+            k += 1
+        return None
+    ctx.parallel(label, fn)
+    ctx.counters['%s.scope-size' % label] = total
+    ctx.counters['%s.stride' % label] = stride
+    if stride == 1:
+        ctx.extra_cov['exhaustive_subdomain'] = (
+            'small scope enumerated completely: %d scenarios = %s' % (total, ' x '.join('%s(%d)' % (n, len(list(v))) for n, v in SMALL_DIMS)))
+    else:
+        ctx.extra_cov['small_scope_sample'] = 'every %dth of the %d small-scope scenarios (all of them in the thorough tier)' % (stride, total)
